@@ -70,13 +70,53 @@ func tpScenario(s *verifsim.Sim) {
 			plans[p] = append(plans[p], pl)
 		}
 	}
+	// in a burst run the flooding producer comes back with a few more packets of the same flow
+	// when the worker has drained the channel and is part-way through the overflow FIFO
+	lateAfter, lateN := 0, 0
+	if burst {
+		lateAfter = T.Range(1, 3) // come back when only this many accepted packets of the flow are still waiting
+		lateN = T.Range(0, 3)
+	}
+	accepted0 := func() int {
+		n := 0
+		for _, r := range recs {
+			if r.key == 0 && r.retSeq > 0 {
+				n++
+			}
+		}
+		return n
+	}
+	executed0 := func() int {
+		n := 0
+		for _, r := range recs {
+			if r.key == 0 && len(r.endSeq) > 0 {
+				n++
+			}
+		}
+		return n
+	}
 	prodDone := 0
 	for p := 0; p < nProd; p++ {
 		p := p
 		verifsim.Go(fmt.Sprintf("producer%d", p), func() {
 			defer func() { prodDone++ }()
 			pseq := map[int]int{}
-			for _, pl := range plans[p] {
+			all := plans[p]
+			if burst && p == 0 {
+				for i := 0; i < lateN; i++ {
+					all = append(all, plan{key: 0, body: -1})
+				}
+			}
+			for _, pl := range all {
+				if pl.body < 0 {
+					// a late packet of the flooded flow: wait (without letting time pass) until
+					// the worker is inside the overflow FIFO
+					pl.body = 0
+					for guard := 0; accepted0()-executed0() > lateAfter && guard < 4000 && !s.Failed(); guard++ {
+						verifsim.Yield("producer-waits-for-drain")
+					}
+					s.Probe("taskpool.emit-during-overflow-drain")
+				}
 				if pl.sleep > 0 {
 					time.Sleep(pl.sleep)
 					verifsim.Yield("producer-woke")
@@ -98,6 +138,16 @@ func tpScenario(s *verifsim.Sim) {
 					running[r.key] = w
 					for i := 0; i < body; i++ {
 						verifsim.Yield("task-body")
+					}
+					if burst && r.producer == 0 && r.pseq == 0 {
+						// a slow handler: the first packet of the flooded flow is still being handled while
+						// the rest of the burst arrives, so the channel really fills up and the FIFO spills
+						for guard := 0; accepted0() < len(plans[0]) && guard < 20000 && !s.Failed(); guard++ {
+							verifsim.Yield("slow-handler")
+						}
+						if accepted0() > UdpTaskQueueLength+1 {
+							s.Probe("taskpool.backlog-beyond-channel")
+						}
 					}
 					delete(running, r.key)
 					seq++
